@@ -394,6 +394,7 @@ func (ex *Exec) havocLoop(st *State, lp *Loop) {
 			fargs = []Sort{SInt, SInt}
 		}
 		fresh := st.sc.freshFun("havoc_"+fam, fargs, f.Res)
+		st.havocClosure(f, fresh, fargs, st.alloc)
 		freshAt := func(p []Term) Term {
 			if isElem {
 				a, abs := elemAbs(p)
@@ -774,6 +775,8 @@ func (ex *Exec) applyContract(st *State, c *ssa.Call, con0 *Contract, bindings [
 	// 2. frame + havoc
 	pre := copyMap(st.heap)
 	preAlloc := st.alloc
+	na := st.sc.fresh("alloc", SInt)
+	st.sc.assert(ge(na, st.alloc))
 	var locsets []LocSet
 	for ci, con := range cons {
 		for _, cl := range con.Assigns {
@@ -824,6 +827,7 @@ func (ex *Exec) applyContract(st *State, c *ssa.Call, con0 *Contract, bindings [
 				fargs = []Sort{SInt, SInt}
 			}
 			fresh := st.sc.freshFun("post_"+fam, fargs, f.Res)
+			st.havocClosure(f, fresh, fargs, na)
 			lss := byFam[fam]
 			st.updateFamWhere(f, func(p []Term) Term {
 				var cs []Term
@@ -857,8 +861,6 @@ func (ex *Exec) applyContract(st *State, c *ssa.Call, con0 *Contract, bindings [
 			})
 		}
 	}
-	na := st.sc.fresh("alloc", SInt)
-	st.sc.assert(ge(na, st.alloc))
 	st.alloc = na
 	// 3. results
 	var results []Term
